@@ -227,7 +227,7 @@ var properties = map[string]*propDef{
 		Level: "exploration",
 		Rule:  "(engine under construction)",
 		Units: []unit{{
-			Name: "x-gorp", Module: "x/go", Package: "./gorp", Passes: allPasses, Engines: []string{"c17"},
+			Name: "x-gorp", Module: "x/go", Package: "./gorp", Passes: allPasses, Engines: []string{"c17", "c17-conc"},
 			QuickBudget: 25 * time.Second, QuickWorkers: 8, ThoroughBudget: 12 * time.Minute, ThoroughWorkers: 16,
 		}},
 	},
